@@ -90,6 +90,17 @@ pub fn search(_obl: &str) -> Vec<Witness> {
     schema_take!("table rename take()", Table::rename().table(a("t"), a("u")).to_owned(), found);
     schema_take!("table truncate take()", Table::truncate().table(a("t")).to_owned(), found);
     schema_take!("index create take()", Index::create().name("i").table(a("t")).col(a("c")).col(a("d")).unique().if_not_exists().index_type(IndexType::BTree).to_owned(), found);
+    // boolean flags: every combination (a flag copied from its neighbour only shows when the two differ)
+    for (u, ine) in [(false, false), (true, false), (false, true)] {
+        let mut i = Index::create(); i.name("i").table(a("t")).col(a("c"));
+        if u { i.unique(); } if ine { i.if_not_exists(); }
+        schema_take!("index create take() flags", i, found);
+    }
+    for (ie, casc) in [(true, false), (false, true)] {
+        let mut d = Table::drop(); d.table(a("t"));
+        if ie { d.if_exists(); } if casc { d.cascade(); }
+        schema_take!("table drop take() flags", d, found);
+    }
     schema_take!("foreign key create take()", ForeignKey::create().name("fk").from(a("t"), a("c")).to(a("u"), a("d")).on_delete(ForeignKeyAction::Cascade).on_update(ForeignKeyAction::SetNull).to_owned(), found);
     {
         let mut c = ColumnDef::new(a("n")); c.string_len(5).not_null().default("q").unique_key().comment("k");
